@@ -117,12 +117,69 @@ def finding_shape(entry, cls, case, r, exp, super_types):
         under_top = {c for root, c in fields if root == "top"}
         if "Product.stock" in under_top and under_top & {"Product.sku", "Product.pkg"}:
             return "keys:plan-error:key-chain-plus-selected-field-of-the-next-key"
+    if cls == "data" and r.get("hasData") and any(t["kind"] == "UNION" for t in super_types):
+        names = {t["name"] for t in super_types}
+        if canon(r["data"]) != canon(exp["data"]) and only_typename_keys_missing(canon(r["data"]), canon(exp["data"]), names) \
+                and count_typename_selections(case["doc"]) >= 2:
+            return "%s:data:rewritten-union-selection-keeps-only-one-typename" % entry["name"]
     if entry["name"] == "deep" and cls in ("data", "errors") and r.get("hasData"):
         roots = differing_roots(case, canon(r["data"]), canon(exp["data"]))
         under_grid = {c for root, c in fields if root == "grid"}
         if roots == ["grid"] and under_grid & {"Book.title", "Book.authors"}:
             return "deep:data:entities-in-a-list-of-lists-are-never-fetched"
     return None
+
+
+def only_typename_keys_missing(got, want, type_names):
+    """the observed data equals the expected data except that keys whose expected value is a type name are missing"""
+    if isinstance(want, dict):
+        if not isinstance(got, dict) or set(got) - set(want):
+            return False
+        for k, v in want.items():
+            if k not in got:
+                if not (isinstance(v, str) and v in type_names):
+                    return False
+            elif not only_typename_keys_missing(got[k], v, type_names):
+                return False
+        return True
+    if isinstance(want, list):
+        return isinstance(got, list) and len(got) == len(want) and all(only_typename_keys_missing(g, w, type_names) for g, w in zip(got, want))
+    return got == want
+
+
+def count_typename_selections(doc):
+    """max number of __typename selections (plus directive-carrying fragments, which make normalization add a placeholder)
+    that end up in one selection set of the operation"""
+    frags = {f["name"]: f for f in doc["frags"]}
+    best = 0
+
+    def rec(sels):
+        nonlocal best
+        n = 0
+        for s in sels:
+            if s["k"] == "f":
+                if s["name"] == "__typename":
+                    n += 1
+                elif s["sel"]:
+                    rec(s["sel"])
+            else:
+                body = s["sel"] if s["k"] == "i" else frags[s["name"]]["sel"]
+                if s["dirs"]:
+                    n += 1
+                rec(body)
+        best = max(best, n)
+    # merged siblings (same response key) share a selection set: approximate by concatenating the sub-selections per key
+    def merged(sels):
+        by = {}
+        for s in sels:
+            if s["k"] == "f" and s["sel"]:
+                by.setdefault(s["alias"] or s["name"], []).extend(s["sel"])
+        for v in by.values():
+            rec(v)
+            merged(v)
+    rec(doc["sel"])
+    merged(doc["sel"])
+    return best
 
 
 def calibrate(ctx, binary):
@@ -202,6 +259,9 @@ def generate(ctx, entries, quick):
     return out
 
 
+IDLE = []   # entity fetches none of whose fields survive @skip/@include (metric, printed by Trace_C01)
+
+
 def nontrivial(result):
     return len({x["sg"] for x in result["exchanges"]}) >= 2
 
@@ -214,6 +274,8 @@ def validate_chunk(ctx, lines, n):
     bad = []
     stuck = None
     for x in r.out.splitlines():
+        if '"C01_IDLE"' in x:
+            IDLE.append(x.strip())
         if '"C01_BAD"' in x:
             m = re.match(r'\s*<<"C01_BAD", (\d+), "([^"]*)", <<([A-Z, ]+)>>', x.strip())
             if not m:
@@ -474,6 +536,16 @@ def run(ctx):
     if neg.violated != "FedRefinesMonolith":
         raise lib.Inconclusive("sanity: with a universe whose keys are not unique the federated model must be able to diverge "
                                "from the monolith (non-vacuity of FedRefinesMonolith), got %r" % neg.error)
+    neg2 = ctx.tlc(SPEC_DIR, "FedNondet", "MC_FedNondet_neg2.cfg", workers=4, timeout=600, count=False, env={"C01_OPS": empty_ops},
+                   tag="mc-fednondet-negative-owners-disagree")
+    if neg2.violated != "FedRefinesMonolith":
+        raise lib.Inconclusive("sanity: when two owners of a shared field disagree the federated model must be able to diverge from "
+                               "the monolith (OwnersAgree is a necessary part of Consistent), got %r" % neg2.error)
+    # every order of the independent fetches (no partial-order reduction): quick = two operations of `basic`,
+    # thorough = all pinned operations of `basic` and `provides`
+    free = concurrent.futures.ThreadPoolExecutor(max_workers=1).submit(
+        ctx.tlc_must_pass, SPEC_DIR, "FedNondet", "MC_FedNondet_freesmall.cfg" if quick else "MC_FedNondet_free.cfg", workers=4 if quick else 8,
+        timeout=2400, env={"C01_OPS": empty_ops}, tag="mc-fednondet-every-fetch-order")
     # ---- 3. generate ------------------------------------------------------------------------------
     gen = generate(ctx, entries, quick)
     cases = list(pinned)
@@ -496,7 +568,9 @@ def run(ctx):
     ctx.log("cases: %s" % json.dumps(stats))
     cases_by_id = {c["id"]: c for c in cases}
     # ---- 2b. the nondeterministic model on a seed-selected sample of the GENERATED operations -------------------
-    pool = [c for c in cases if c["id"] not in {p["id"] for p in pinned} and c["doc"].get("op", "query") == "query"]
+    # (not in the model: effects of mutations; required fields WITH arguments -- entry requires3)
+    pool = [c for c in cases if c["id"] not in {p["id"] for p in pinned} and c["doc"].get("op", "query") == "query"
+            and c["entry"] != "requires3"]
     rng2 = random.Random(ctx.seed + 17)
     rng2.shuffle(pool)
     per, ops = {}, []
@@ -513,6 +587,7 @@ def run(ctx):
     # ---- 4. replay --------------------------------------------------------------------------------
     results = run_driver(ctx, binary, catalog_path, cases, "all")
     mcf.result()   # model-level failure => INCONCLUSIVE (raised by tlc_must_pass)
+    free.result()
     bg.shutdown()
     # ---- 5./6. decide + validate ------------------------------------------------------------------
     nlines, nx, ncl = decide_and_validate(ctx, cases_by_id, results, entry_index, entries, quick, rng)
@@ -534,12 +609,14 @@ def run(ctx):
         "subgraph_exchanges_validated": nx,
         "client_observations_rejudged_by_tlc": ncl,
         "calibration_items_compared": ncal,
+        "idle_entity_fetches": len(IDLE),
         "exhaustive": False,
     })
     ctx.assumptions += [
         "catalog of hand-written supergraphs/layouts and data universes, not all schemas; operations bounded (BFS: depth<=2,width<=2; sampled: depth<=3-4,width<=3)",
         "fedcfg writes the planner metadata cosmo composition would write (calibrated on 4 shipped router configs)",
-        "consistent universes: unique keys, key and @requires inputs well-typed; the value of a @requires field is a digest of its inputs",
+        "consistent universes = the TLC-checked predicate Consistent (WellTyped, UniqueKeys, KeysPresent, InputsClean, OwnersAgree) on every "
+        "catalog universe, with two deliberately inconsistent universes rejected by it; the value of a @requires field is a digest of its inputs",
         "gqlparser is trusted as text->AST converter; the Go simulator is NOT trusted (every distinct answer is re-derived by TLC)",
         "out of scope: @interfaceObject / entity interfaces (metadata rule not calibratable from the shipped configs), @override, @inaccessible on "
         "types and enum values, input coercion corner cases, subscriptions, gRPC subgraphs, @defer",
